@@ -253,6 +253,8 @@ Definition check_case (c : case) : nat :=
   match c with
   | CSeq p d jrev ec src jo dst rep dirty suffix =>
       let m_ok := negb (jo_merr jo) && jo_valid jo && wellformed (jo_val jo) in
+      (* a target that already held something (dirty) is NOT part of the property (C15 speaks about fresh targets): it is
+         compared by the model tie below only (kind 1); C09 judges UnmarshalJSON into a used map/set against its reference *)
       let u_ok := negb (jo_uerr jo) && abs_eqb d dst (restored_ref d src) && jo_twice jo in
       let model := seq_model_ok p d jrev ec src (jo_val jo) dst rep dirty in
       if negb m_ok then 2%nat
@@ -263,7 +265,7 @@ Definition check_case (c : case) : nat :=
            end
   | CMapc d kc vc src jo dst dirty suffix =>
       let m_ok := negb (jo_merr jo) && jo_valid jo && wellformed (jo_val jo) in
-      let u_ok := negb (jo_uerr jo) && mabs_eqb d dst (match d with MLinked => src | _ => src end) && jo_twice jo in
+      let u_ok := negb (jo_uerr jo) && mabs_eqb d dst src && jo_twice jo in
       let model := map_model_ok d kc vc src (jo_val jo) dst dirty in
       if negb m_ok then 2%nat
       else if negb u_ok then (1 * 4 + 2)%nat
